@@ -86,6 +86,10 @@ type Runtime struct {
 	// LockYield, if non-nil, reports whether a task about to take a lock
 	// should yield first (only consulted when ClassLock is enabled).
 	Trace func(ev string)
+
+	// OnWrap, if set, is told when a timer callback task is allocated (timer
+	// armed) and by which task.
+	OnWrap func(timer *Task, by *Task)
 }
 
 var cur atomic.Pointer[Runtime]
@@ -299,7 +303,7 @@ func Go(site string, f func()) {
 // Wrap replaces the callback of time.AfterFunc. The task is allocated when the
 // timer is armed (deterministic id and name); it becomes ready when it fires.
 func Wrap(site string, f func()) func() {
-	rt, _ := Current()
+	rt, by := Current()
 	if rt == nil {
 		return f
 	}
@@ -308,6 +312,9 @@ func Wrap(site string, f func()) func() {
 	rt.wrapN[site]++
 	rt.Mu.Unlock()
 	t := rt.newTask("timer:"+site+"#"+strconv.Itoa(n), StPending)
+	if rt.OnWrap != nil {
+		rt.OnWrap(t, by)
+	}
 	return func() { t.run(f) }
 }
 
